@@ -605,7 +605,7 @@ def _norm(seq):
 
 
 def check_case(spec: dict) -> dict:
-    t = spec["type"]
+    t = spec.get("type") or ("name" if "absent" in spec else None)  # absent-name cases are generated without a type tag
     if t == "rule-history":
         return run_rule_history(_norm(spec["seq"]))
     if t == "layer-history":
